@@ -105,6 +105,8 @@ pub struct Compiled {
   pub wat: String,
   /// encoded name of the entry module's Main.main in both backends
   pub main_fn: String,
+  /// the emitted `__samlang_loader__.js`
+  pub loader_js: String,
 }
 
 /// the real `compile_sources` (what the CLI calls); Err = rendered diagnostics
@@ -123,5 +125,6 @@ pub fn compile_project(p: &Project, entry: &str) -> Result<Compiled, String> {
     .unwrap_or("")
     .trim_end_matches("();")
     .to_string();
-  Ok(Compiled { ts, wasm: r.wasm_file, wat, main_fn })
+  let loader_js = r.text_code_results.get("__samlang_loader__.js").cloned().unwrap_or_default();
+  Ok(Compiled { ts, wasm: r.wasm_file, wat, main_fn, loader_js })
 }
